@@ -80,7 +80,7 @@ def correspond(ctx):
                 if phase == 'library-use-error':
                     c.notes.append('library-use phase: %s' % st)
                 continue
-            c.count('ctx-check:' + phase.split('-')[1])
+            c.count('ctx-check:' + '-'.join(phase.split('-')[1:3]))
             if st != [True, True] or outside is not True:
                 c.failures.append(Failure('correspondence',
                                           'residue %s (mode, hashseed = %s): _current_synthdef is None / lock free = %s, outside UGen has no def = %s'
@@ -89,6 +89,15 @@ def correspond(ctx):
                                           found_input=True, signature='C20:residue', theorem='ctx_released_on_every_path'))
             else:
                 c.nontriv(('ctx', key, phase))
+        kinds = dict((a, b) for a, b in r.get('reads', []))
+        for label in ('newfrom_unregistered', 'add_unregistered', 'truncated', 'corrupt_classname'):
+            if kinds.get(label) == 'ok':
+                c.notes.append('description read %s did not raise in %s' % (label, key))
+        if kinds.get('newfrom_good') not in (None, 'ok'):
+            c.failures.append(Failure('correspondence', 'SynthDesc.new_from of a well-formed definition raised %s (%s)' % (kinds['newfrom_good'], key),
+                                      replay={'mode': key[0], 'hashseed': key[1], 'reads': r.get('reads')}))
+        if 'newfrom_unregistered' not in kinds:
+            c.failures.append(Failure('correspondence', 'description-read phase did not run: %s' % r.get('reads'), replay={'reads': r.get('reads')}))
         if r['thread_errors']:
             c.failures.append(Failure('correspondence', 'thread phase failed (%s): %s' % (key, r['thread_errors'][:2]),
                                       replay={'mode': key[0], 'hashseed': key[1], 'errors': r['thread_errors'][:3]},
@@ -123,9 +132,15 @@ def correspond(ctx):
         n += 1
         evs.append('EBuild %d [%d] RaisesException' % (n, n))
         evs.append('EOutside 0')
-    txt = ('From Coq Require Import List Bool. Import ListNotations.\nRequire Import SC3.model.BuildCtx.\n'
+    for label, kind in ref.get('reads', []):
+        if label.startswith('build'):
+            continue
+        n += 1
+        evs.append('ERead %d [%d] %s' % (n, n, 'Succeeds' if kind == 'ok' else 'RaisesException'))
+        evs.append('EOutside 0')
+    txt = ('From Coq Require Import List Bool. Import ListNotations.\nRequire Import SC3.model.BuildCtx SC3.gen.Gen_opcodes.\n'
            'Definition evs := [%s].\n'
-           'Eval vm_compute in (let r := run ctx0 evs in (cur (fst r), locked (fst r), '
+           'Eval vm_compute in (let r := run desc_read_finally ctx0 evs in (cur (fst r), locked (fst r), '
            'forallb (fun o => match o with OOutside _ None => true | OOutside _ _ => false | OBlocked _ => false | _ => true end) (snd r))).\n'
            % '; '.join(evs))
     rc, out = ctx.coq('ctxrun', txt)
